@@ -170,17 +170,17 @@ theorem squietW_mapW (g : Watcher → Watcher) (hu : ∀ w, (g w).uid = w.uid)
 theorem squiet_mapW (g : Watcher → Watcher) (hu : ∀ w, (g w).uid = w.uid)
     (hp : ∀ w p, p ∈ (g w).pids → p ∈ w.pids)
     (hh : ∀ w h, (w.hookCalls.lookup h).isSome = true → ((g w).hookCalls.lookup h).isSome = true)
-    (hs : ∀ w, (g w).stopSignal = w.stopSignal)
+    (hs : ∀ w, (g w).stopSignal = 9 → w.stopSignal = 9)
     (s : State) : SQuiet s { s with ws := s.ws.map g } where
   toSQuietW := squietW_mapW g hu hp hh s
   nn := ⟨⟨[], by simp, fun _ h => by cases h⟩, fun w' hw' h9 => by
       obtain ⟨w, hw, rfl⟩ := List.mem_map.mp hw'
-      exact ⟨w, hw, by rw [← hs w]; exact h9⟩⟩
+      exact ⟨w, hw, hs w h9⟩⟩
 
 theorem squiet_modW (u : Nat) (f : Watcher → Watcher) (hu : ∀ w, (f w).uid = w.uid)
     (hp : ∀ w p, p ∈ (f w).pids → p ∈ w.pids)
     (hh : ∀ w h, (w.hookCalls.lookup h).isSome = true → ((f w).hookCalls.lookup h).isSome = true)
-    (hs : ∀ w, (f w).stopSignal = w.stopSignal)
+    (hs : ∀ w, (f w).stopSignal = 9 → w.stopSignal = 9)
     (s : State) : SQuiet s (modW u f s).2 := by
   simp only [modW, modS]
   apply squiet_mapW
@@ -193,9 +193,9 @@ theorem squiet_modW (u : Nat) (f : Watcher → Watcher) (hu : ∀ w, (f w).uid =
   · intro w h hc; split
     · exact hh w h hc
     · exact hc
-  · intro w; split
-    · exact hs w
-    · rfl
+  · intro w h9; split at h9
+    · exact hs w h9
+    · exact h9
 
 theorem squietW_modW (u : Nat) (f : Watcher → Watcher) (hu : ∀ w, (f w).uid = w.uid)
     (hp : ∀ w p, p ∈ (f w).pids → p ∈ w.pids)
@@ -219,7 +219,7 @@ theorem squiet_popPid (u p : Nat) (s : State) : SQuiet s (popPid u p s).2 := by
   · intro _; rfl
   · intro w q h; exact (List.mem_filter.mp h).1
   · intro _ _ h; exact h
-  · intro _; rfl
+  · intro _ h; exact h
 
 theorem lookup_cons_filter_isSome (h k : String) (n : Nat) (l : List (String × Nat))
     (hl : (l.lookup k).isSome = true) : (((h, n) :: l.filter (·.1 ≠ h)).lookup k).isSome = true := by
@@ -252,7 +252,7 @@ theorem squiet_bumpHook (u : Nat) (h : String) (i : Nat) (s : State) : SQuiet s 
   · intro _; rfl
   · intro w q hq; exact hq
   · intro w k hk; exact lookup_cons_filter_isSome h k (i + 1) w.hookCalls hk
-  · intro _; rfl
+  · intro _ h9; exact h9
 
 theorem squiet_setStatus (u : Nat) (st : Status) (s : State) : SQuiet s (setStatus u st s).2 := by
   unfold setStatus
@@ -260,7 +260,7 @@ theorem squiet_setStatus (u : Nat) (st : Status) (s : State) : SQuiet s (setStat
   · intro _; rfl
   · intro w q hq; exact hq
   · intro _ _ h; exact h
-  · intro _; rfl
+  · intro _ h; exact h
 
 /-- `set_opt`: may write `stop_signal` -/
 theorem squietW_setWOpt (u : Nat) (c : OptChange) (s : State) : SQuietW s (setWOpt u c s).2 := by
@@ -269,6 +269,20 @@ theorem squietW_setWOpt (u : Nat) (c : OptChange) (s : State) : SQuietW s (setWO
   · intro w; cases c <;> rfl
   · intro w q hq; cases c <;> exact hq
   · intro w k hk; cases c <;> exact hk
+
+/-- … `set_opt` that does not write `stop_signal = 9` -/
+theorem squiet_setWOpt (u : Nat) (c : OptChange) (hc : c ≠ .stopSignal 9) (s : State) : SQuiet s (setWOpt u c s).2 := by
+  unfold setWOpt
+  refine squiet_modW u _ ?_ ?_ ?_ ?_ s
+  · intro w; cases c <;> rfl
+  · intro w q hq; cases c <;> exact hq
+  · intro w k hk; cases c <;> exact hk
+  · intro w h9
+    cases c with
+    | stopSignal n =>
+      simp only [applyOpt] at h9
+      exact absurd (by rw [h9]) hc
+    | _ => exact h9
 
 theorem squiet_trySetNp (u : Nat) (n : Int) (s : State) : SQuiet s (trySetNp u n s).2 := by
   unfold trySetNp
@@ -280,7 +294,7 @@ theorem squiet_trySetNp (u : Nat) (n : Int) (s : State) : SQuiet s (trySetNp u n
     · intro w; split <;> rfl
     · intro w p h; split at h <;> exact h
     · intro w h hc; split <;> exact hc
-    · intro w; split <;> rfl
+    · intro w h9; split at h9 <;> exact h9
 
 /-- rewriting `Process` objects: pid and `stopping` kept -/
 theorem squiet_modO (p : Nat) (f : PObj → PObj) (hf : ∀ o, (f o).pid = o.pid ∧ (f o).stopping = o.stopping)
